@@ -96,10 +96,19 @@ func observe(c cfgLike, res *result) {
 
 // ---- whole file through config.Manager
 
+// unregistered: sections whose component newManager leaves out (partial
+// registration is how the service binary builds its Manager: only the chosen
+// consensus and datastore components are registered; the file may still hold
+// the other sections, which ToJSON preserves verbatim).
+var unregistered map[string]bool
+
 func newManager() (*config.Manager, map[string]config.ComponentConfig) {
 	m := config.NewManager()
 	cs := map[string]config.ComponentConfig{}
 	for _, s := range sections {
+		if unregistered[s.name] {
+			continue
+		}
 		c := s.newCfg()
 		cs[s.name] = c
 		m.RegisterComponent(s.stype, c)
